@@ -40,3 +40,16 @@ Theorem C09_415_400 : forall t m params query,
              bind_data t d 2 = Error -> bind t m params query (BForm d) = Status 400).
 Proof. exact bind_status. Qed.
 Print Assumptions C09_415_400.
+
+(* map destinations: whatever a map ends up holding is a key of an applicable source with that source's values
+   (all of them, or the first one for string / interface{} elements); an unsupported element type binds nothing *)
+Theorem C09_map_from_sources : forall mode m params query d kvs, bind_map mode m params query (BForm d) = MBound kvs ->
+  forall kv, In kv kvs -> exists kv0,
+    (In kv0 params \/ (is_query_method m = true /\ In kv0 query) \/ In kv0 d) /\
+    fst kv = fst kv0 /\ (snd kv = snd kv0 \/ snd kv = firstn 1 (snd kv0)).
+Proof. exact bind_map_from_sources. Qed.
+Print Assumptions C09_map_from_sources.
+
+Theorem C09_map_ignored : forall m params query b kvs, bind_map MIgnored m params query b = MBound kvs -> kvs = [].
+Proof. exact bind_map_ignored. Qed.
+Print Assumptions C09_map_ignored.
